@@ -46,7 +46,7 @@ From OFGA Require Export Conc.FifoSpec.
 
 Inductive op := OSend (v : N) | ORecv | OClose | OGrow (n : nat).
 
-Inductive result := RSend (ok : bool) | RRecv (v : option N) | RClose | RGrow.
+Inductive result := RSend (v : N) (ok : bool) | RRecv (v : option N) | RClose | RGrow (n : nat).
 
 Inductive pc :=
 | Idle          (* between calls; the next step is the first lock acquisition of the next op *)
@@ -136,13 +136,6 @@ Record state := mkState { g : glob; thr : list thread }.
 Definition slot_at (gl : glob) (i : nat) : nat * N := nth i (slots gl) (0, 0%N).
 Definition seq_at (gl : glob) (p : nat) : nat := fst (slot_at gl (p mod cap gl)).
 Definition data_at (gl : glob) (p : nat) : N := snd (slot_at gl (p mod cap gl)).
-
-Fixpoint upd {A} (i : nat) (x : A) (l : list A) : list A :=
-  match l, i with
-  | [], _ => []
-  | _ :: r, O => x :: r
-  | y :: r, S j => y :: upd j x r
-  end.
 
 Definition set_seq (gl : glob) (p v : nat) : list (nat * N) :=
   let i := p mod cap gl in upd i (v, snd (slot_at gl i)) (slots gl).
@@ -240,8 +233,8 @@ Definition tstep (gl : glob) (nw nh : bool) (t : nat) (th : thread) : option (gl
   | S_sig =>
       if eclosed gl then Some (with_panic gl, th)
       else Some (with_etok gl true, goto th S_rett)
-  | S_rett => Some (gl, finish th (RSend true))
-  | S_retf => Some (gl, finish th (RSend false))
+  | S_rett => Some (gl, finish th (RSend (r_val th) true))
+  | S_retf => Some (gl, finish th (RSend (r_val th) false))
   | S_snap =>
       if can_extend gl then Some (gl, goto_cap th S_lock (cap gl))
       else Some (gl, goto_cap th S_park (cap gl))
@@ -301,7 +294,11 @@ Definition tstep (gl : glob) (nw nh : bool) (t : nat) (th : thread) : option (gl
       | OGrow n :: _ => Some (extend gl n, goto th G_unlock)
       | _ => Some (gl, goto th G_unlock)
       end
-  | G_unlock => Some (gl, finish th RGrow)
+  | G_unlock =>
+      match prog th with
+      | OGrow n :: _ => Some (gl, finish th (RGrow n))
+      | _ => Some (gl, finish th (RGrow 0))
+      end
   end.
 
 Definition no_writer (ths : list thread) : bool :=
